@@ -706,9 +706,15 @@ func (in *Interp) callFunction(fn *ssa.Function, args []Value, binds []Value, ca
 		d()
 	}
 	in.panicking = false
-	if in.recovered && fn.Recover != nil {
+	if in.recovered {
 		in.recovered = false
 		in.panicVal = nil
+		if fn.Recover == nil {
+			if fn.Signature.Results().Len() == 0 {
+				return nil
+			}
+			return in.zero(fn.Signature.Results())
+		}
 		ret2, pa2 := in.runFrom(fr, fn.Recover)
 		if pa2 != nil {
 			panic(*pa2)
